@@ -57,7 +57,7 @@ Definition is_xerial_header (h : list N) : bool :=
   (16 <=? len_N h) && list_eqb (firstn 8 h) xerial_magic.
 
 (* error classes (the harness maps Go errors to these names) *)
-Inductive xerr := EEOF | EUnexpectedEOF | ECorrupt | EShortWrite.
+Inductive xerr := EEOF | EUnexpectedEOF | ECorrupt | EShortWrite | EIO.
 
 (* ------------------------------------------------------------------ sink *)
 Record sink := { k_data : list N; k_room : option N }.
@@ -113,6 +113,16 @@ Definition xw_raw (x : xwriter) (s : sink) (b : list N) : xwriter * sink * bool 
 (* result of a Write/ReadFrom call: bytes consumed, error *)
 Inductive wres := WOk (n : N) | WErr (n : N) (e : xerr) | WStuck.
 
+(* an io.Reader handed to ReadFrom *)
+Record source := {
+  src_data : list N;           (* the bytes it delivers *)
+  src_steps : list N;          (* the i-th Read returns at most this many bytes (0: a (0, nil) Read);
+                                  no limit once the list is exhausted *)
+  src_eof_with_data : bool;    (* the Read that hands over the last byte also returns the final
+                                  error: (n > 0, io.EOF), as iotest.DataErrReader does *)
+  src_fails : bool             (* the final error is not io.EOF *)
+}.
+
 Section Codec.
   Variable enc : list N -> list N.
   Variable dec : list N -> option (list N).
@@ -162,36 +172,47 @@ Section Codec.
   Definition xw_write (x : xwriter) (s : sink) (b : list N) : xwriter * sink * wres :=
     xw_write_loop (S (length b)) (xw_ensure x) s b 0.
 
-  (* ReadFrom(r): r delivers [data] and then io.EOF; the i-th r.Read returns at most
-     the i-th element of [limits] bytes (no limit once the list is exhausted) *)
-  Fixpoint xw_read_from_loop (fuel : nat) (x : xwriter) (s : sink) (data : list N)
-           (limits : list N) (wn : N) {struct fuel} : xwriter * sink * wres :=
+  (* ReadFrom(r).  One turn of its loop: grow when full, r.Read into the free space —
+     the source hands over at most [lim] bytes: (x', rest of the source's data, n) *)
+  Definition xw_pull_in (x : xwriter) (data : list N) (lim : option N) : xwriter * list N * N :=
+    let x := if xw_full x then xw_grow x else x in
+    let room := w_cap x - len_N (w_input x) in
+    let n := N.min (match lim with None => room | Some l => N.min room l end) (len_N data) in
+    (xw_set_input x (w_input x ++ take_N n data), drop_N n data, n).
+
+  (* does this r.Read return the source's final error?  Always once the data is exhausted;
+     together with the last bytes when the source is of the iotest.DataErrReader kind *)
+  Definition src_at_end (r : source) (rest : list N) (n : N) : bool :=
+    match src_data r with
+    | [] => true
+    | _ :: _ => src_eof_with_data r && (0 <? n) && (match rest with [] => true | _ :: _ => false end)
+    end.
+
+  Fixpoint xw_read_from_loop (fuel : nat) (x : xwriter) (s : sink) (r : source) (wn : N) {struct fuel}
+    : xwriter * sink * wres :=
     match fuel with
     | O => (x, s, WStuck)
     | S fuel' =>
-      let x := if xw_full x then xw_grow x else x in
-      let room := w_cap x - len_N (w_input x) in
-      let lim := match limits with [] => room | l :: _ => N.max 1 l end in
-      let n := N.min (N.min room lim) (len_N data) in
-      let eof := match data with [] => true | _ => false end in
-      let x := xw_set_input x (w_input x ++ take_N n data) in
-      let data := drop_N n data in
+      let '(x, rest, n) := xw_pull_in x (src_data r) (hd_error (src_steps r)) in
+      let at_end := src_at_end r rest n in
       let wn := wn + n in
       let '(x, s, ok) := if xw_full_enough x then xw_flush x s else (x, s, true) in
       if negb ok then (x, s, WErr wn EShortWrite)
-      else if eof then (x, s, WOk wn)
-      else xw_read_from_loop fuel' x s data (tl limits) wn
+      else if at_end then (x, s, if src_fails r then WErr wn EIO else WOk wn)
+      else xw_read_from_loop fuel' x s
+             {| src_data := rest; src_steps := tl (src_steps r);
+                src_eof_with_data := src_eof_with_data r; src_fails := src_fails r |} wn
     end.
 
-  Definition xw_read_from (x : xwriter) (s : sink) (data limits : list N) : xwriter * sink * wres :=
-    xw_read_from_loop (S (S (length data))) (xw_ensure x) s data limits 0.
+  Definition xw_read_from (x : xwriter) (s : sink) (r : source) : xwriter * sink * wres :=
+    xw_read_from_loop (S (S (length (src_data r) + length (src_steps r)))) (xw_ensure x) s r 0.
 
   (* writer.Close: err = x.Flush(); x.Reset(nil); writerPool.Put(x) — returns the object
      as it goes back to the pool *)
   Definition xw_close (x : xwriter) (s : sink) : xwriter * sink * bool :=
     let '(x, s, ok) := xw_flush x s in (xw_reset x, s, ok).
 
-  Inductive wop := OWrite (b : list N) | OReadFrom (data limits : list N) | OFlush.
+  Inductive wop := OWrite (b : list N) | OReadFrom (r : source) | OFlush.
 
   Fixpoint xw_ops (x : xwriter) (s : sink) (ops : list wop) {struct ops}
     : xwriter * sink * list wres :=
@@ -201,7 +222,7 @@ Section Codec.
       let '(x, s, r) :=
         match op with
         | OWrite b => xw_write x s b
-        | OReadFrom d l => xw_read_from x s d l
+        | OReadFrom r => xw_read_from x s r
         | OFlush => let '(x, s, ok) := xw_flush x s in
                     (x, s, if ok then WOk 0 else WErr 0 EShortWrite)
         end in
